@@ -375,7 +375,9 @@ def run(ck):
     for name, cfg in variants():
         per_variant(ck, name, cfg)
     final_write(ck)
-    from contracts import C14
+    from contracts import C14, cli_model
+
+    cli_model.obligations(ck, "C16")  # the same callback with a results table that has rows / has none (an empty astropy Table is falsy)
 
     ck.bounded_run("results of a run without a surviving trajectory", lambda: C14.native_empty_runs(ck),
                    design="compute() on two configurations in which nothing survives the geometry stage (non-default settings): the table that would be written carries this run's configuration in its header")
